@@ -164,7 +164,7 @@ void _soxr_deinterleave_f(float * * dest, /* Round/clipping not needed here */
   T * dest = *dest0; \
   if (ch > 1) \
   for (j = 0; j < n; ++j) for (i = 0; i < ch; ++i) *dest++ = (T)src[i][j]; \
-  else if (flag) memcpy(dest, src[0], n * sizeof(T)), dest = &dest[n]; \
+  else if (flag) {if (n) memcpy(dest, src[0], n * sizeof(T)), dest = &dest[n];} \
   else for (j = 0; j < n; *dest++ = (T)src[0][j++]); \
   *dest0 = dest; \
   return 0; \
